@@ -266,6 +266,8 @@ def run(repo: Repo, rep: Report, tier: str) -> None:
     sw, atoms, ex_atoms = find_mode_switch(gen)  # type: ignore[misc]
     # the output-package variable: the one whose existence the mode switch tests (when several: the one that is later removed)
     rm_targets = {_root_name(c.args[0]) for c in calls_in(gen.node) if dotted(c.func) == "shutil.rmtree" and c.args}
+    _GL = _L10(gen.node)
+    rm_targets |= {_GL.root(t) for t in list(rm_targets) if t}  # `stale = out_dir; rmtree(stale)`: the alias stands for the directory itself
     out_exists = [a for a in ex_atoms if a.split(".")[0] in rm_targets] or (ex_atoms if len(ex_atoms) == 1 else [])
     rep.require(bool(out_exists), "R10.3: the mode switch does not test <output package dir>.exists()")
     OUT = out_exists[0].split(".")[0] if out_exists else "out_dir"
@@ -536,7 +538,7 @@ def run(repo: Repo, rep: Report, tier: str) -> None:
             continue
         if kind == "shutil.rmtree":
             in_direct = _inside(c, direct_body)
-            tgt_ok = _root_name(pexpr) == OUT
+            tgt_ok = _root_name(pexpr) == OUT or (fn.fq == gen.fq and _root_name(pexpr) is not None and _GL.root(_root_name(pexpr)) == OUT)
             if in_direct and tgt_ok:
                 rep.ok("R10.3", sub, f"target is exactly out_dir, only in the direct-generation branch ({allowed[(fn.fq, kind)]})", fn.loc(c))
             else:
